@@ -417,6 +417,32 @@ pub fn exec_op(cx: &Cx, world: &mut World, op: &Value) {
                 emit(cx, r, Some(&*world));
             }
         }
+        "fault" => {
+            // C19: the k-th destructor call made by library code during the inner
+            // operation panics; the unwind is caught here
+            let k = op["k"].as_u64().unwrap_or(1) as u32;
+            let inner = op["op"].clone();
+            let before = ledger::panicked().len();
+            ledger::arm_panic(k);
+            let r = catch(|| exec_op(cx, world, &inner));
+            ledger::disarm();
+            let fired = ledger::panicked().len() > before;
+            match r {
+                Ok(()) => {}
+                Err(msg) => {
+                    if fired {
+                        emit(
+                            cx,
+                            json!({"op":"Fault","in":opname(&inner),"k":k,"msg":msg,"ledger":ledger::dump()}),
+                            Some(&*world),
+                        );
+                    } else {
+                        // not ours: an ordinary panic of the code under test
+                        std::panic::resume_unwind(Box::new(msg));
+                    }
+                }
+            }
+        }
         "prealloc" => {
             // n entities created at once; only those at the `keep` positions survive
             let n = op["n"].as_u64().unwrap_or(1) as usize;
@@ -530,12 +556,19 @@ pub fn run_script(script: &Value) -> Vec<String> {
             break;
         }
     }
-    // teardown is part of every history
+    // teardown is part of every history (optionally with a destructor that panics)
+    let tk = script["fault_teardown"].as_u64().unwrap_or(0) as u32;
+    let before = ledger::panicked().len();
+    if tk > 0 {
+        ledger::arm_panic(tk);
+    }
     let r = catch(move || drop(world));
-    if let Err(msg) = r {
+    ledger::disarm();
+    let tfault = ledger::panicked().len() > before;
+    if let (Err(msg), false) = (&r, tfault) {
         emit(&cx, json!({"op":"Panic","in":"DropWorld","msg":msg}), None);
     } else if !aborted {
-        emit(&cx, json!({"op":"DropWorld","ledger":ledger::dump()}), None);
+        emit(&cx, json!({"op":"DropWorld","ledger":ledger::dump(),"tfault":tfault}), None);
     }
     let mut g = lock(&cx);
     std::mem::take(&mut g.log)
